@@ -413,6 +413,33 @@ def exception_site(e: BaseException, code: str) -> dict:
     return {"line": ln, "top": None}
 
 
+def rename_member(code: str, cls_qual: str, member: str, new: str) -> str | None:
+    """the module with the binding statement(s) of `member` in class `cls_qual` renamed (counterfactual:
+    the same module without that class-level binding of the name); None when there is no such member"""
+    tree = ast.parse(code)
+    found = False
+
+    def walk(body, prefix):
+        nonlocal found
+        for s in body:
+            if isinstance(s, ast.ClassDef):
+                q = prefix + s.name
+                if q == cls_qual:
+                    for b in s.body:
+                        if isinstance(b, ast.AnnAssign) and isinstance(b.target, ast.Name) and b.target.id == member:
+                            b.target.id = new
+                            found = True
+                        elif isinstance(b, ast.Assign):
+                            for t in b.targets:
+                                if isinstance(t, ast.Name) and t.id == member:
+                                    t.id = new
+                                    found = True
+                walk(s.body, q + ".")
+
+    walk(tree.body, "")
+    return ast.unparse(tree) if found else None
+
+
 _MOD = re.compile(r"dcgverif_gen_\d+_\d+")
 
 
